@@ -142,16 +142,19 @@ def eval_case(case):
             lines = json.loads(parseUDToJson(72, ver, memoryview(data))).get('History Log')
             if not isinstance(lines, list):
                 raise ValueError('plug-in returned no History Log lines: %r' % (lines,))
-        elif case.get('via') == 'pel':
+        elif case.get('via') in ('pel', 'pel_ed'):
             # ... and as the user data section of an I/O drawer log decoded by the tool (parsePEL hands it to the plug-in)
             from mc import pelgen, decode
             from io_drawer.drawer_type import DRAWER_TYPES
             ver = [dt.user_data_version for dt in DRAWER_TYPES if dt.name == case['type']][0]
-            r = decode.parse(pelgen.encode_pel(pelgen.pel_from_spec({'creator': 'M', 'sections': [
-                {'t': 'UD', 'comp': 0x2C00, 'sub': 72, 'ver': ver, 'payload': data.hex()}]})))
-            lines = (r.get('doc') or {}).get('User Data', {}).get('History Log') if r['kind'] == 'doc' else None
+            ed = case['via'] == 'pel_ed'
+            # (pel_ed: the same log carried by an Extended User Data section, which names its creator itself)
+            sec = {'t': 'ED', 'creator': 'M', 'comp': 0x2C00, 'sub': 72, 'ver': ver, 'payload': data.hex()} if ed else \
+                {'t': 'UD', 'comp': 0x2C00, 'sub': 72, 'ver': ver, 'payload': data.hex()}
+            r = decode.parse(pelgen.encode_pel(pelgen.pel_from_spec({'creator': 'O' if ed else 'M', 'sections': [sec]})))
+            lines = (r.get('doc') or {}).get('Extended User Data' if ed else 'User Data', {}).get('History Log') if r['kind'] == 'doc' else None
             if not isinstance(lines, list):
-                raise ValueError('the decoded log shows no History Log lines: %s %r' % (r['kind'], (r.get('doc') or {}).get('User Data', r.get('msg'))))
+                raise ValueError('the decoded log shows no History Log lines: %s %r' % (r['kind'], (r.get('doc') or {}).get('Extended User Data' if ed else 'User Data', r.get('msg'))))
         else:
             lines = parse_hlog_data(memoryview(data), path)
         core.disarm()
@@ -224,6 +227,8 @@ def run_chunk(chunk):
                 _do(res, {'type': t, 'data': fill.hex(), 'via': 'plugin'})
                 if n % 3 == 1 or n >= total - 1:
                     _do(res, {'type': t, 'data': fill.hex(), 'via': 'pel'})
+                if n % 3 == 2 or n >= total - 1:
+                    _do(res, {'type': t, 'data': fill.hex(), 'via': 'pel_ed'})
         offs = []
         o = 0
         for name, s in fields:
